@@ -47,6 +47,7 @@ pub fn drive_hostile(t: &mut Tracer, rq: RqCfg, stream: &[u8], arrivals: &[usize
     let mut oi = 0usize;
     let mut steps = 0;
     let mut idle = 0;
+    let mut hops = 0;
     let adv = |t: &mut Tracer, op: &str, res: &str| t.ev(json!({"ev":"adv","op":op,"res":res}));
     loop {
         steps += 1;
@@ -262,19 +263,33 @@ pub fn drive_hostile(t: &mut Tracer, rq: RqCfg, stream: &[u8], arrivals: &[usize
                     t.ev(json!({"ev":"panic","during":"redirect queries after server input"}));
                     return;
                 }
-                match guarded(|| f.as_new_flow(RedirectAuthHeaders::SameHost).map(|x| x.is_some())) {
-                    Some(r) => adv(t, "as_new_flow", &format!("{:?}", r.map_err(|e| format!("{:?}", e)))[..].chars().take(60).collect::<String>()),
+                let next = match guarded(|| f.as_new_flow(RedirectAuthHeaders::SameHost)) {
+                    Some(r) => {
+                        adv(t, "as_new_flow", match &r { Ok(Some(_)) => "flow", Ok(None) => "none", Err(_) => "err" });
+                        r.ok().flatten()
+                    }
                     None => {
                         t.ev(json!({"ev":"panic","during":"as_new_flow after server input"}));
                         return;
                     }
-                }
-                fb = match guarded(|| f.proceed()) {
-                    Some(x) => FlowBox::Cleanup(x),
-                    None => {
-                        t.ev(json!({"ev":"panic","during":"Redirect::proceed"}));
-                        return;
+                };
+                hops += 1;
+                fb = match next {
+                    // follow the redirect on the same byte stream (the server keeps talking): up to 3 hops
+                    Some(nf) if hops <= 3 => {
+                        if guarded(|| (nf.uri().to_string(), nf.method().clone())).is_none() {
+                            t.ev(json!({"ev":"panic","during":"inspecting the redirected flow"}));
+                            return;
+                        }
+                        FlowBox::Prepare(nf)
                     }
+                    _ => match guarded(|| f.proceed()) {
+                        Some(x) => FlowBox::Cleanup(x),
+                        None => {
+                            t.ev(json!({"ev":"panic","during":"Redirect::proceed"}));
+                            return;
+                        }
+                    },
                 };
             }
             FlowBox::Cleanup(f) => {
@@ -314,7 +329,15 @@ fn render_segs(segs: &Value) -> Vec<u8> {
             "field" | "trailer" => {
                 let name = if rep > 0 && g("name") == "LONGNAME" { "a".repeat(rep) } else { g("name") };
                 let val = if rep > 0 && g("val") == "LONGVALUE" { "v".repeat(rep) } else { g("val") };
-                b.extend(format!("{}: {}\r\n", name, val).as_bytes());
+                b.extend(format!("{}: ", name).as_bytes());
+                // the marker <HI> stands for one obs-text byte
+                for (k, piece) in val.split("<HI>").enumerate() {
+                    if k > 0 {
+                        b.push(0xE5);
+                    }
+                    b.extend(piece.as_bytes());
+                }
+                b.extend(b"\r\n");
             }
             "blank" | "crlf" => b.extend(b"\r\n"),
             "size" => b.extend(format!("{}{}\r\n", g("n"), g("ext")).as_bytes()),
